@@ -49,6 +49,24 @@ type cliCase struct {
 	Quiet   bool       `json:"quiet"`
 }
 
+// every number the commands print about an alignment is compared with the alignment written
+var reNumberOf = regexp.MustCompile(`number of ([^=\n]*)=(-?\d+)`)
+var reLenBefore = regexp.MustCompile(`length before cleaning=(-?\d+)`)
+var reLenAfter = regexp.MustCompile(`length after cleaning=(-?\d+)`)
+var reSeqsBefore = regexp.MustCompile(`#seqs before cleaning=(-?\d+)`)
+var reSeqsAfter = regexp.MustCompile(`#seqs after cleaning=(-?\d+)`)
+var reSeqsRemoved = regexp.MustCompile(`removed sequences=(-?\d+)`)
+
+// printed returns the k-th number matched by re in the messages, if the messages hold exactly one per alignment
+func printed(re *regexp.Regexp, stderr string, nAlign, k int) (int, bool) {
+	m := re.FindAllStringSubmatch(stderr, -1)
+	if len(m) != nAlign {
+		return 0, false
+	}
+	v, err := strconv.Atoi(m[k][len(m[k])-1])
+	return v, err == nil
+}
+
 var reStart = regexp.MustCompile(`number of start [^=\n]*=(\d+)`)
 var reEnd = regexp.MustCompile(`number of end [^=\n]*=(\d+)`)
 
@@ -162,12 +180,12 @@ func TestCLIEveryLetter(t *testing.T) {
 		t.Skip("no goalign binary")
 	}
 	check := checkCLI(cli.TempDir("c12letters"))
-	pbt.Enumerate(t, "clean sites / clean seqs --char <every letter A-Z a-z> x {no option, --ignore-n, --ignore-gaps, --ignore-case}", func(yield func(cliCase) bool) {
+	pbt.Enumerate(t, "clean sites / clean seqs --char <every letter A-Z a-z> x {no option, --ignore-n, --ignore-gaps, --ignore-case}, and the sets <letter>- with --ignore-gaps, <letter>N with --ignore-n", func(yield func(cliCase) bool) {
 		const letters = "ABCDEFGHIJKLMNOPQRSTUVWXYZabcdefghijklmnopqrstuvwxyz"
 		for i := 0; i < len(letters); i++ {
 			ch := string(letters[i])
 			for _, sub := range []string{"sites", "seqs"} {
-				for opt := 0; opt < 4; opt++ {
+				for opt := 0; opt < 6; opt++ {
 					// J, U, O would make the detected alphabet of the file "unknown": they are only chosen, not present
 					in := ch
 					if strings.ContainsAny(ch, "JUOjuo") {
@@ -182,6 +200,14 @@ func TestCLIEveryLetter(t *testing.T) {
 						c.IG = true
 					case 3:
 						c.IC = true
+					case 4:
+						// the letter together with '-' and --ignore-gaps: refused or computed, never silently nothing
+						c.Char, c.IG = ch+"-", true
+					case 5:
+						c.Char, c.IN = ch+"N", true
+					}
+					if sub == "seqs" && opt >= 4 {
+						continue // clean seqs takes one character
 					}
 					if !yield(c) {
 						return
@@ -405,6 +431,25 @@ func checkCLI(dir string) func(c cliCase) (pbt.Outcome, error) {
 					}
 					nEither++
 				}
+				if !c.Quiet {
+					if v, ok := printed(reLenBefore, r.Stderr, len(all), ai); ok && v != l {
+						return o, fmt.Errorf("goalign %v: alignment %d: \"length before cleaning=%d\" printed, the alignment has %d columns", args, ai, v, l)
+					}
+					if v, ok := printed(reLenAfter, r.Stderr, len(all), ai); ok && v != nk {
+						return o, fmt.Errorf("goalign %v: alignment %d: \"length after cleaning=%d\" printed, %d columns are written", args, ai, v, nk)
+					}
+					// "number of <what>=" without the start / end lines: the number of removed columns
+					var totals []int
+					for _, m := range reNumberOf.FindAllStringSubmatch(r.Stderr, -1) {
+						if !strings.HasPrefix(m[1], "start ") && !strings.HasPrefix(m[1], "end ") {
+							v, _ := strconv.Atoi(m[2])
+							totals = append(totals, v)
+						}
+					}
+					if len(totals) == len(all) && totals[ai] != l-nk {
+						return o, fmt.Errorf("goalign %v: alignment %d: %d removed columns printed, %d columns were removed", args, ai, totals[ai], l-nk)
+					}
+				}
 				o.Ambiguous += nEither
 				o.NonTrivial = o.NonTrivial || (len(rm) > 0 && len(kept) > 0) || anyTie
 				if ai == 0 {
@@ -422,6 +467,17 @@ func checkCLI(dir string) func(c cliCase) (pbt.Outcome, error) {
 			removed, e := verifySeqs(alRows, states, got, 0, false)
 			if e != nil {
 				return o, fmt.Errorf("goalign %v: alignment %d of the file: %v\n input : %s\n output: %s", args, ai, e, gen.Show(inRows), gen.Show(got))
+			}
+			if !c.Quiet {
+				for _, x := range []struct {
+					re   *regexp.Regexp
+					what string
+					want int
+				}{{reSeqsBefore, "#seqs before cleaning", len(alRows)}, {reSeqsAfter, "#seqs after cleaning", len(got)}, {reSeqsRemoved, "removed sequences", removed}} {
+					if v, ok := printed(x.re, r.Stderr, len(all), ai); ok && v != x.want {
+						return o, fmt.Errorf("goalign %v: alignment %d: \"%s=%d\" printed, the output shows %d", args, ai, x.what, v, x.want)
+					}
+				}
 			}
 			o.Ambiguous += nEither
 			o.NonTrivial = o.NonTrivial || (removed > 0 && removed < len(alRows)) || anyTie
